@@ -29,6 +29,11 @@ type projTermsT struct {
 
 // projTerms interprets both members of a registered projection.
 func projTerms(c *Ctx, ctor *types.Func, name string, hemi float64) (*projTermsT, string) {
+	return projTermsOf(c, ctor, name, "+proj="+name+" +lat_1=P1 +lat_2=P2 +lat_0=P3 +lon_0=P4 +x_0=P5 +y_0=P6 +k_0=P13 +zone=P40 +a=P7 +rf=P8 +no_defs", hemi, 0)
+}
+
+// projTermsOf: the same for a reference given as a full PROJ.4 text.
+func projTermsOf(c *Ctx, ctor *types.Func, name, text string, hemi float64, lam float64) (*projTermsT, string) {
 	m, parse := newC20m(c)
 	if m == nil {
 		return nil, "proj.Parse does not resolve"
@@ -41,10 +46,13 @@ func projTerms(c *Ctx, ctor *types.Func, name string, hemi float64) (*projTermsT
 	if name == "utm" {
 		val["lam"] = -1.7 // inside zone 14
 	}
+	if lam != 0 {
+		val["lam"] = lam // the reference position's longitude, given by the caller
+	}
 	symWiden = val
 	defer func() { symWiden = nil }()
 	symResetEval()
-	sr, why := m.run(parse, "+proj="+name+" +lat_1=P1 +lat_2=P2 +lat_0=P3 +lon_0=P4 +x_0=P5 +y_0=P6 +k_0=P13 +zone=P40 +a=P7 +rf=P8 +no_defs")
+	sr, why := m.run(parse, text)
 	if why != "" {
 		return nil, why
 	}
